@@ -261,4 +261,450 @@ theorem emptyL_zeroF : ∀ fs : List Field, emptyL (zeroF fs) = true
     simp [zeroF, emptyL, h1, h2]
 end
 
+/-! ## the emitted tree is canonical -/
+
+theorem pow64 : (2:Nat)^64 = 18446744073709551616 := by decide
+theorem pow63 : (2:Nat)^63 = 9223372036854775808 := by decide
+
+mutual
+theorem toV_wf_sorted : ∀ (ty : Ty) (o : Obj), SchemaWF ty = true → HasTy ty o = true →
+    wfB (toV ty o) = true ∧ sortedB (toV ty o) = true
+  | ty, .bool b, _, ht => by
+    obtain rfl := hasTy_bool ht
+    simp [toV, wfB, sortedB]
+  | ty, .uint n, _, ht => by
+    obtain ⟨bits, rfl, hb, hn⟩ := hasTy_uint ht
+    have h1 : 2 ^ bits ≤ 2 ^ 64 := Nat.pow_le_pow_right (by decide) hb
+    rw [pow64] at h1
+    simp only [toV, wfB, sortedB, decide_eq_true_eq, and_true]
+    omega
+  | ty, .int i, _, ht => by
+    obtain ⟨bits, rfl, hb1, hb, hlo, hhi⟩ := hasTy_int ht
+    have h1 : 2 ^ (bits - 1) ≤ 2 ^ 63 := Nat.pow_le_pow_right (by decide) (by omega)
+    rw [pow63] at h1
+    generalize 2 ^ (bits - 1) = p at hlo hhi h1
+    simp only [toV]
+    split
+    · simp only [wfB, sortedB, decide_eq_true_eq, and_true]; omega
+    · simp only [wfB, sortedB, Bool.and_eq_true, decide_eq_true_eq, and_true]; omega
+  | ty, .str s, _, ht => by
+    obtain ⟨rfl, hl⟩ := hasTy_str ht
+    simp only [toV, wfB, sortedB, decide_eq_true_eq, and_true]; exact hl
+  | ty, .bytesNil, _, ht => by
+    obtain rfl := hasTy_bytesNil ht
+    simp [toV, wfB, sortedB]
+  | ty, .bytes b, _, ht => by
+    obtain ⟨rfl, hl⟩ := hasTy_bytes ht
+    simp only [toV, wfB, sortedB, decide_eq_true_eq, and_true]; exact hl
+  | ty, .fixed b, _, ht => by
+    obtain ⟨n, rfl, hl, hn⟩ := hasTy_fixed ht
+    simp only [toV, wfB, sortedB, decide_eq_true_eq, and_true]; omega
+  | ty, .sliceNil, _, ht => by
+    obtain ⟨e, rfl⟩ := hasTy_sliceNil ht
+    simp [toV, wfB, sortedB]
+  | ty, .slice xs, hw, ht => by
+    obtain ⟨e, rfl, hl, hx⟩ := hasTy_slice ht
+    simp only [SchemaWF] at hw
+    have ih := toV_wf_sortedL e xs hw hx
+    simp only [toV, wfB, sortedB, toVL_length, Bool.and_eq_true, decide_eq_true_eq]
+    exact ⟨⟨hl, ih.1⟩, ih.2⟩
+  | ty, .array xs, hw, ht => by
+    obtain ⟨n, e, rfl, hl, hn, hx⟩ := hasTy_array ht
+    simp only [SchemaWF] at hw
+    have ih := toV_wf_sortedL e xs hw hx
+    simp only [toV, wfB, sortedB, toVL_length, Bool.and_eq_true, decide_eq_true_eq]
+    exact ⟨⟨by omega, ih.1⟩, ih.2⟩
+  | ty, .mapNil, _, ht => by
+    obtain ⟨k, v, rfl⟩ := hasTy_mapNil ht
+    simp [toV, wfB, sortedB]
+  | ty, .map kvs, hw, ht => by
+    obtain ⟨k, v, rfl, hl, hm, hs⟩ := hasTy_map ht
+    simp only [SchemaWF, Bool.and_eq_true] at hw
+    have ih := toV_wf_sortedM k v kvs hw.2.1 hw.2.2 hm
+    simp only [toV, wfB, sortedB, toVM_length, Bool.and_eq_true, decide_eq_true_eq]
+    exact ⟨⟨hl, ih.1⟩, hs, ih.2⟩
+  | ty, .struct os, hw, ht => by
+    obtain ⟨fs, rfl, hf⟩ := hasTy_struct ht
+    simp only [SchemaWF, Bool.and_eq_true, decide_eq_true_eq] at hw
+    have ih := toV_wf_sortedF fs os hw.2.2 hf
+    have hlen := toVF_length_le fs os
+    have hlen' := hasTyF_length hf
+    have hlt : (toVF fs os).length < 4294967296 := by omega
+    simp only [toV, wfB, sortedB, Bool.and_eq_true, decide_eq_true_eq]
+    exact ⟨⟨hlt, ih.1⟩, toVF_sorted fs os hw.2.1, ih.2⟩
+theorem toV_wf_sortedL : ∀ (e : Ty) (xs : List Obj), SchemaWF e = true → HasTyL e xs = true →
+    wfL (toVL e xs) = true ∧ sortedL (toVL e xs) = true
+  | _, [], _, _ => by simp [toVL, wfL, sortedL]
+  | e, x :: xs, hw, ht => by
+    simp only [HasTyL, Bool.and_eq_true] at ht
+    have h1 := toV_wf_sorted e x hw ht.1
+    have h2 := toV_wf_sortedL e xs hw ht.2
+    simp only [toVL, wfL, sortedL, Bool.and_eq_true]
+    exact ⟨⟨h1.1, h2.1⟩, h1.2, h2.2⟩
+theorem toV_wf_sortedM : ∀ (k v : Ty) (kvs : List (Obj × Obj)), SchemaWF k = true → SchemaWF v = true →
+    HasTyM k v kvs = true → wfM (toVM k v kvs) = true ∧ sortedM (toVM k v kvs) = true
+  | _, _, [], _, _, _ => by simp [toVM, wfM, sortedM]
+  | k, v, (a, b) :: r, hk, hv, ht => by
+    simp only [HasTyM, Bool.and_eq_true] at ht
+    have h1 := toV_wf_sorted k a hk ht.1
+    have h2 := toV_wf_sorted v b hv ht.2.1
+    have h3 := toV_wf_sortedM k v r hk hv ht.2.2
+    simp only [toVM, wfM, sortedM, Bool.and_eq_true]
+    exact ⟨⟨h1.1, h2.1, h3.1⟩, h1.2, h2.2, h3.2⟩
+theorem toV_wf_sortedF : ∀ (fs : List Field) (os : List Obj), SchemaWFF fs = true → HasTyF fs os = true →
+    wfM (toVF fs os) = true ∧ sortedM (toVF fs os) = true
+  | fs, [], _, _ => by rw [toVF_nil_right]; simp [wfM, sortedM]
+  | fs, o :: os, hw, ht => by
+    obtain ⟨name, oe, ty, fs', rfl, h1, h2⟩ := hasTyF_cons_right ht
+    simp only [SchemaWFF, Bool.and_eq_true, decide_eq_true_eq] at hw
+    have ih1 := toV_wf_sorted ty o hw.2.1 h1
+    have ih2 := toV_wf_sortedF fs' os hw.2.2 h2
+    rw [toVF_cons]
+    split
+    · exact ih2
+    · simp only [wfM, sortedM, wfB, sortedB, Bool.and_eq_true, decide_eq_true_eq, true_and]
+      exact ⟨⟨hw.1, ih1.1, ih2.1⟩, ih1.2, ih2.2⟩
+end
+
+/-! ## normalisation preserves emptiness and the emitted tree -/
+
+mutual
+theorem emptyO_normR : ∀ (ty : Ty) (o : Obj), HasTy ty o = true → emptyO (normR ty o) = emptyO o
+  | ty, .bool b, ht => by obtain rfl := hasTy_bool ht; simp only [normR]
+  | ty, .uint n, ht => by obtain ⟨bits, rfl, _⟩ := hasTy_uint ht; simp only [normR]
+  | ty, .int i, ht => by obtain ⟨bits, rfl, _⟩ := hasTy_int ht; simp only [normR]
+  | ty, .str s, ht => by obtain ⟨rfl, _⟩ := hasTy_str ht; simp only [normR]
+  | ty, .bytesNil, ht => by obtain rfl := hasTy_bytesNil ht; simp only [normR]
+  | ty, .bytes b, ht => by obtain ⟨rfl, _⟩ := hasTy_bytes ht; simp only [normR]
+  | ty, .fixed b, ht => by obtain ⟨n, rfl, _⟩ := hasTy_fixed ht; simp only [normR]
+  | ty, .sliceNil, ht => by obtain ⟨e, rfl⟩ := hasTy_sliceNil ht; simp only [normR]
+  | ty, .slice xs, ht => by
+    obtain ⟨e, rfl, _, _⟩ := hasTy_slice ht
+    cases xs <;> simp [normR, normL, emptyO]
+  | ty, .array xs, ht => by
+    obtain ⟨n, e, rfl, _, _, hx⟩ := hasTy_array ht
+    simp only [normR, emptyO]
+    exact emptyL_normL e xs hx
+  | ty, .mapNil, ht => by obtain ⟨k, v, rfl⟩ := hasTy_mapNil ht; simp only [normR]
+  | ty, .map kvs, ht => by
+    obtain ⟨k, v, rfl, _⟩ := hasTy_map ht
+    cases kvs with
+    | nil => simp [normR, normM, emptyO]
+    | cons kv r => obtain ⟨a, b⟩ := kv; simp [normR, normM, emptyO]
+  | ty, .struct os, ht => by
+    obtain ⟨fs, rfl, hf⟩ := hasTy_struct ht
+    simp only [normR, emptyO]
+    exact emptyL_normF fs os hf
+theorem emptyL_normL : ∀ (e : Ty) (xs : List Obj), HasTyL e xs = true → emptyL (normL e xs) = emptyL xs
+  | _, [], _ => by simp [normL]
+  | e, x :: xs, ht => by
+    simp only [HasTyL, Bool.and_eq_true] at ht
+    simp only [normL, emptyL, emptyO_normR e x ht.1, emptyL_normL e xs ht.2]
+theorem emptyL_normF : ∀ (fs : List Field) (os : List Obj), HasTyF fs os = true →
+    emptyL (normF fs os) = emptyL os
+  | fs, [], _ => by rw [normF_nil_right]
+  | fs, o :: os, ht => by
+    obtain ⟨name, oe, ty, fs', rfl, h1, h2⟩ := hasTyF_cons_right ht
+    have ih1 := emptyO_normR ty o h1
+    have ih2 := emptyL_normF fs' os h2
+    rw [normF_cons]
+    simp only [emptyL, ih2]
+    by_cases c : (oe && emptyO o) = true
+    · rw [if_pos c, emptyO_zero]
+      simp only [Bool.and_eq_true] at c
+      rw [c.2]
+    · rw [if_neg c, ih1]
+end
+
+mutual
+theorem toV_normR : ∀ (ty : Ty) (o : Obj), HasTy ty o = true → toV ty (normR ty o) = toV ty o
+  | ty, .bool b, ht => by obtain rfl := hasTy_bool ht; simp only [normR]
+  | ty, .uint n, ht => by obtain ⟨bits, rfl, _⟩ := hasTy_uint ht; simp only [normR]
+  | ty, .int i, ht => by obtain ⟨bits, rfl, _⟩ := hasTy_int ht; simp only [normR]
+  | ty, .str s, ht => by obtain ⟨rfl, _⟩ := hasTy_str ht; simp only [normR]
+  | ty, .bytesNil, ht => by obtain rfl := hasTy_bytesNil ht; simp only [normR]
+  | ty, .bytes b, ht => by obtain ⟨rfl, _⟩ := hasTy_bytes ht; simp only [normR]
+  | ty, .fixed b, ht => by obtain ⟨n, rfl, _⟩ := hasTy_fixed ht; simp only [normR]
+  | ty, .sliceNil, ht => by obtain ⟨e, rfl⟩ := hasTy_sliceNil ht; simp only [normR]
+  | ty, .slice xs, ht => by
+    obtain ⟨e, rfl, _, hx⟩ := hasTy_slice ht
+    simp only [normR, toV, toVL_normL e xs hx]
+  | ty, .array xs, ht => by
+    obtain ⟨n, e, rfl, _, _, hx⟩ := hasTy_array ht
+    simp only [normR, toV, toVL_normL e xs hx]
+  | ty, .mapNil, ht => by obtain ⟨k, v, rfl⟩ := hasTy_mapNil ht; simp only [normR]
+  | ty, .map kvs, ht => by
+    obtain ⟨k, v, rfl, _, hm, _⟩ := hasTy_map ht
+    simp only [normR, toV, toVM_normM k v kvs hm]
+  | ty, .struct os, ht => by
+    obtain ⟨fs, rfl, hf⟩ := hasTy_struct ht
+    simp only [normR, toV, toVF_normF fs os hf]
+theorem toVL_normL : ∀ (e : Ty) (xs : List Obj), HasTyL e xs = true → toVL e (normL e xs) = toVL e xs
+  | _, [], _ => by simp [normL]
+  | e, x :: xs, ht => by
+    simp only [HasTyL, Bool.and_eq_true] at ht
+    simp only [normL, toVL, toV_normR e x ht.1, toVL_normL e xs ht.2]
+theorem toVM_normM : ∀ (k v : Ty) (kvs : List (Obj × Obj)), HasTyM k v kvs = true →
+    toVM k v (normM k v kvs) = toVM k v kvs
+  | _, _, [], _ => by simp [normM]
+  | k, v, (a, b) :: r, ht => by
+    simp only [HasTyM, Bool.and_eq_true] at ht
+    simp only [normM, toVM, toV_normR k a ht.1, toV_normR v b ht.2.1, toVM_normM k v r ht.2.2]
+theorem toVF_normF : ∀ (fs : List Field) (os : List Obj), HasTyF fs os = true →
+    toVF fs (normF fs os) = toVF fs os
+  | fs, [], _ => by rw [normF_nil_right]
+  | fs, o :: os, ht => by
+    obtain ⟨name, oe, ty, fs', rfl, h1, h2⟩ := hasTyF_cons_right ht
+    have ih1 := toV_normR ty o h1
+    have ih2 := toVF_normF fs' os h2
+    have he := emptyO_normR ty o h1
+    rw [normF_cons, toVF_cons, toVF_cons, ih2]
+    by_cases c : (oe && emptyO o) = true
+    · have c' : (oe && emptyO (zero ty)) = true := by
+        simp only [Bool.and_eq_true] at c ⊢
+        exact ⟨c.1, emptyO_zero ty⟩
+      rw [if_pos c, if_pos c', if_pos c]
+    · rw [if_neg c, he, if_neg c, ih1, if_neg c]
+end
+
+/-! ## decode ∘ emit = normalise -/
+
+theorem takeField_cons_self (name : Bytes) (v : V) (rest : List (V × V)) :
+    takeField name ((V.str name, v) :: rest) = some (v, rest) := by
+  simp [takeField]
+
+theorem takeField_none {name : Bytes} {kvs : List (V × V)}
+    (h : ∀ kv ∈ kvs, ∃ m, kv.1 = V.str m ∧ lexLt name m = true) : takeField name kvs = none := by
+  cases kvs with
+  | nil => simp [takeField]
+  | cons kv rest =>
+    obtain ⟨k, v⟩ := kv
+    obtain ⟨m, hm, hlt⟩ := h (k, v) (List.mem_cons_self ..)
+    simp only at hm
+    subst hm
+    have hne : ¬ m = name := fun e => lexLt_ne hlt e.symm
+    simp only [takeField, if_neg hne]
+
+mutual
+theorem fromV_toV_normR : ∀ (ty : Ty) (o : Obj), SchemaWF ty = true → HasTy ty o = true →
+    fromV ty (toV ty o) = some (normR ty o)
+  | ty, .bool b, _, ht => by obtain rfl := hasTy_bool ht; simp only [toV, fromV, normR]
+  | ty, .uint n, _, ht => by
+    obtain ⟨bits, rfl, _, hn⟩ := hasTy_uint ht
+    simp only [toV, fromV, normR, if_pos hn]
+  | ty, .int i, _, ht => by
+    obtain ⟨bits, rfl, _, _, hlo, hhi⟩ := hasTy_int ht
+    simp only [toV, normR]
+    split
+    · next h0 =>
+      have e : ((i.toNat : Nat) : Int) = i := Int.toNat_of_nonneg h0
+      have hlt : i.toNat < 2 ^ (bits - 1) := by
+        generalize 2 ^ (bits - 1) = p at hlo hhi ⊢
+        omega
+      simp only [fromV, if_pos hlt, e]
+    · simp only [fromV, if_pos (And.intro hlo hhi)]
+  | ty, .str s, _, ht => by obtain ⟨rfl, _⟩ := hasTy_str ht; simp only [toV, fromV, normR]
+  | ty, .bytesNil, _, ht => by obtain rfl := hasTy_bytesNil ht; simp only [toV, fromV, normR]
+  | ty, .bytes b, _, ht => by obtain ⟨rfl, _⟩ := hasTy_bytes ht; simp only [toV, fromV, normR]
+  | ty, .fixed b, _, ht => by
+    obtain ⟨n, rfl, hl, _⟩ := hasTy_fixed ht
+    simp only [toV, fromV, normR, if_pos hl]
+  | ty, .sliceNil, _, ht => by obtain ⟨e, rfl⟩ := hasTy_sliceNil ht; simp only [toV, fromV, normR]
+  | ty, .slice xs, hw, ht => by
+    obtain ⟨e, rfl, _, hx⟩ := hasTy_slice ht
+    simp only [SchemaWF] at hw
+    simp only [toV, fromV, normR, fromV_toVL e xs hw hx, Option.map_some]
+  | ty, .array xs, hw, ht => by
+    obtain ⟨n, e, rfl, hl, _, hx⟩ := hasTy_array ht
+    simp only [SchemaWF] at hw
+    have hl' : (toVL e xs).length = n := by rw [toVL_length]; exact hl
+    simp only [toV, fromV, normR, if_pos hl', fromV_toVL e xs hw hx, Option.map_some]
+  | ty, .mapNil, _, ht => by obtain ⟨k, v, rfl⟩ := hasTy_mapNil ht; simp only [toV, fromV, normR]
+  | ty, .map kvs, hw, ht => by
+    obtain ⟨k, v, rfl, _, hm, _⟩ := hasTy_map ht
+    simp only [SchemaWF, Bool.and_eq_true] at hw
+    simp only [toV, fromV, normR, fromV_toVM k v kvs hw.2.1 hw.2.2 hm, Option.map_some]
+  | ty, .struct os, hw, ht => by
+    obtain ⟨fs, rfl, hf⟩ := hasTy_struct ht
+    simp only [SchemaWF, Bool.and_eq_true, decide_eq_true_eq] at hw
+    simp only [toV, fromV, normR, fromV_toVF fs os hw.2.1 hw.2.2 hf, Option.map_some]
+theorem fromV_toVL : ∀ (e : Ty) (xs : List Obj), SchemaWF e = true → HasTyL e xs = true →
+    mapOpt (fromV e) (toVL e xs) = some (normL e xs)
+  | _, [], _, _ => by simp [toVL, normL, mapOpt]
+  | e, x :: xs, hw, ht => by
+    simp only [HasTyL, Bool.and_eq_true] at ht
+    simp only [toVL, normL, mapOpt, fromV_toV_normR e x hw ht.1, fromV_toVL e xs hw ht.2]
+theorem fromV_toVM : ∀ (k v : Ty) (kvs : List (Obj × Obj)), SchemaWF k = true → SchemaWF v = true →
+    HasTyM k v kvs = true → mapOpt2 (fromV k) (fromV v) (toVM k v kvs) = some (normM k v kvs)
+  | _, _, [], _, _, _ => by simp [toVM, normM, mapOpt2]
+  | k, v, (a, b) :: r, hk, hv, ht => by
+    simp only [HasTyM, Bool.and_eq_true] at ht
+    simp only [toVM, normM, mapOpt2, fromV_toV_normR k a hk ht.1, fromV_toV_normR v b hv ht.2.1,
+      fromV_toVM k v r hk hv ht.2.2]
+theorem fromV_toVF : ∀ (fs : List Field) (os : List Obj), namesSorted fs = true → SchemaWFF fs = true →
+    HasTyF fs os = true → fromVF fs (toVF fs os) = some (normF fs os)
+  | fs, [], _, _, ht => by
+    obtain rfl := hasTyF_nil_right ht
+    simp [toVF_nil_right, normF_nil_right, fromVF]
+  | fs, o :: os, hs, hw, ht => by
+    obtain ⟨name, oe, ty, fs', rfl, h1, h2⟩ := hasTyF_cons_right ht
+    have hs' := namesSorted_cons hs
+    simp only [SchemaWFF, Bool.and_eq_true, decide_eq_true_eq] at hw
+    have ih1 := fromV_toV_normR ty o hw.2.1 h1
+    have ih2 := fromV_toVF fs' os hs'.2 hw.2.2 h2
+    rw [toVF_cons, normF_cons]
+    by_cases c : (oe && emptyO o) = true
+    · rw [if_pos c, if_pos c]
+      have hoe : oe = true := by
+        simp only [Bool.and_eq_true] at c
+        exact c.1
+      have hnone : takeField name (toVF fs' os) = none := takeField_none (toVF_keys_lb name fs' os hs'.1)
+      simp only [fromVF, hnone, hoe, ih2, if_true, Option.map_some]
+    · rw [if_neg c, if_neg c]
+      simp only [fromVF, takeField_cons_self, ih1, ih2]
+end
+
+/-! ## zero values and normal forms are well typed -/
+
+theorem hasTyL_replicate (e : Ty) (z : Obj) (h : HasTy e z = true) (n : Nat) :
+    HasTyL e (List.replicate n z) = true := by
+  induction n with
+  | zero => simp [HasTyL]
+  | succ n ih => simp [List.replicate, HasTyL, h, ih]
+
+mutual
+theorem hasTy_zero_of : ∀ (ty : Ty) (o : Obj), HasTy ty o = true → HasTy ty (zero ty) = true
+  | ty, .bool b, ht => by obtain rfl := hasTy_bool ht; simp [zero, HasTy]
+  | ty, .uint n, ht => by
+    obtain ⟨bits, rfl, hb, _⟩ := hasTy_uint ht
+    have := Nat.pow_pos (n := bits) (show 0 < 2 by decide)
+    simp only [zero, HasTy, Bool.and_eq_true, decide_eq_true_eq]
+    exact ⟨hb, this⟩
+  | ty, .int i, ht => by
+    obtain ⟨bits, rfl, hb1, hb, _, _⟩ := hasTy_int ht
+    have := Nat.pow_pos (n := bits - 1) (show 0 < 2 by decide)
+    simp only [zero, HasTy, Bool.and_eq_true, decide_eq_true_eq]
+    generalize 2 ^ (bits - 1) = p at this
+    omega
+  | ty, .str s, ht => by obtain ⟨rfl, _⟩ := hasTy_str ht; simp [zero, HasTy]
+  | ty, .bytesNil, ht => by obtain rfl := hasTy_bytesNil ht; simp [zero, HasTy]
+  | ty, .bytes b, ht => by obtain ⟨rfl, _⟩ := hasTy_bytes ht; simp [zero, HasTy]
+  | ty, .fixed b, ht => by
+    obtain ⟨n, rfl, _, hn⟩ := hasTy_fixed ht
+    simp [zero, HasTy, hn]
+  | ty, .sliceNil, ht => by obtain ⟨e, rfl⟩ := hasTy_sliceNil ht; simp [zero, HasTy]
+  | ty, .slice xs, ht => by obtain ⟨e, rfl, _⟩ := hasTy_slice ht; simp [zero, HasTy]
+  | ty, .array [], ht => by
+    obtain ⟨n, e, rfl, hl, hn, _⟩ := hasTy_array ht
+    simp only [List.length_nil] at hl
+    subst hl
+    simp [zero, HasTy, HasTyL]
+  | ty, .array (x :: xs), ht => by
+    obtain ⟨n, e, rfl, hl, hn, hx⟩ := hasTy_array ht
+    simp only [HasTyL, Bool.and_eq_true] at hx
+    have ih := hasTy_zero_of e x hx.1
+    simp only [zero, HasTy, Bool.and_eq_true, decide_eq_true_eq, List.length_replicate]
+    exact ⟨trivial, hn, hasTyL_replicate e _ ih n⟩
+  | ty, .mapNil, ht => by obtain ⟨k, v, rfl⟩ := hasTy_mapNil ht; simp [zero, HasTy]
+  | ty, .map kvs, ht => by obtain ⟨k, v, rfl, _⟩ := hasTy_map ht; simp [zero, HasTy]
+  | ty, .struct os, ht => by
+    obtain ⟨fs, rfl, hf⟩ := hasTy_struct ht
+    simp only [zero, HasTy]
+    exact hasTyF_zeroF_of fs os hf
+theorem hasTyF_zeroF_of : ∀ (fs : List Field) (os : List Obj), HasTyF fs os = true →
+    HasTyF fs (zeroF fs) = true
+  | fs, [], ht => by obtain rfl := hasTyF_nil_right ht; simp [zeroF, HasTyF]
+  | fs, o :: os, ht => by
+    obtain ⟨name, oe, ty, fs', rfl, h1, h2⟩ := hasTyF_cons_right ht
+    simp only [zeroF, HasTyF, Bool.and_eq_true]
+    exact ⟨hasTy_zero_of ty o h1, hasTyF_zeroF_of fs' os h2⟩
+end
+
+mutual
+theorem hasTy_normR : ∀ (ty : Ty) (o : Obj), HasTy ty o = true → HasTy ty (normR ty o) = true
+  | ty, .bool b, ht => by obtain rfl := hasTy_bool ht; simp only [normR]; exact ht
+  | ty, .uint n, ht => by obtain ⟨bits, rfl, _⟩ := hasTy_uint ht; simp only [normR]; exact ht
+  | ty, .int i, ht => by obtain ⟨bits, rfl, _⟩ := hasTy_int ht; simp only [normR]; exact ht
+  | ty, .str s, ht => by obtain ⟨rfl, _⟩ := hasTy_str ht; simp only [normR]; exact ht
+  | ty, .bytesNil, ht => by obtain rfl := hasTy_bytesNil ht; simp only [normR]; exact ht
+  | ty, .bytes b, ht => by obtain ⟨rfl, _⟩ := hasTy_bytes ht; simp only [normR]; exact ht
+  | ty, .fixed b, ht => by obtain ⟨n, rfl, _⟩ := hasTy_fixed ht; simp only [normR]; exact ht
+  | ty, .sliceNil, ht => by obtain ⟨e, rfl⟩ := hasTy_sliceNil ht; simp only [normR]; exact ht
+  | ty, .slice xs, ht => by
+    obtain ⟨e, rfl, hl, hx⟩ := hasTy_slice ht
+    simp only [normR, HasTy, normL_length, Bool.and_eq_true, decide_eq_true_eq]
+    exact ⟨hl, hasTyL_normL e xs hx⟩
+  | ty, .array xs, ht => by
+    obtain ⟨n, e, rfl, hl, hn, hx⟩ := hasTy_array ht
+    simp only [normR, HasTy, normL_length, Bool.and_eq_true, decide_eq_true_eq]
+    exact ⟨hl, hn, hasTyL_normL e xs hx⟩
+  | ty, .mapNil, ht => by obtain ⟨k, v, rfl⟩ := hasTy_mapNil ht; simp only [normR]; exact ht
+  | ty, .map kvs, ht => by
+    obtain ⟨k, v, rfl, hl, hm, hs⟩ := hasTy_map ht
+    simp only [normR, HasTy, normM_length, toVM_normM k v kvs hm, Bool.and_eq_true, decide_eq_true_eq]
+    exact ⟨hl, hasTyM_normM k v kvs hm, hs⟩
+  | ty, .struct os, ht => by
+    obtain ⟨fs, rfl, hf⟩ := hasTy_struct ht
+    simp only [normR, HasTy]
+    exact hasTyF_normF fs os hf
+theorem hasTyL_normL : ∀ (e : Ty) (xs : List Obj), HasTyL e xs = true → HasTyL e (normL e xs) = true
+  | _, [], _ => by simp [normL, HasTyL]
+  | e, x :: xs, ht => by
+    simp only [HasTyL, Bool.and_eq_true] at ht
+    simp only [normL, HasTyL, Bool.and_eq_true]
+    exact ⟨hasTy_normR e x ht.1, hasTyL_normL e xs ht.2⟩
+theorem hasTyM_normM : ∀ (k v : Ty) (kvs : List (Obj × Obj)), HasTyM k v kvs = true →
+    HasTyM k v (normM k v kvs) = true
+  | _, _, [], _ => by simp [normM, HasTyM]
+  | k, v, (a, b) :: r, ht => by
+    simp only [HasTyM, Bool.and_eq_true] at ht
+    simp only [normM, HasTyM, Bool.and_eq_true]
+    exact ⟨hasTy_normR k a ht.1, hasTy_normR v b ht.2.1, hasTyM_normM k v r ht.2.2⟩
+theorem hasTyF_normF : ∀ (fs : List Field) (os : List Obj), HasTyF fs os = true →
+    HasTyF fs (normF fs os) = true
+  | fs, [], ht => by rw [normF_nil_right]; exact ht
+  | fs, o :: os, ht => by
+    obtain ⟨name, oe, ty, fs', rfl, h1, h2⟩ := hasTyF_cons_right ht
+    rw [normF_cons]
+    simp only [HasTyF, Bool.and_eq_true]
+    refine ⟨?_, hasTyF_normF fs' os h2⟩
+    split
+    · exact hasTy_zero_of ty o h1
+    · exact hasTy_normR ty o h1
+end
+
+/-! ## decidable equality of objects, decidable `≈` -/
+
+mutual
+theorem beqO_iff : ∀ a b : Obj, beqO a b = true ↔ a = b
+  | .bool a, b => by cases b <;> simp [beqO]
+  | .uint a, b => by cases b <;> simp [beqO]
+  | .int a, b => by cases b <;> simp [beqO]
+  | .str a, b => by cases b <;> simp [beqO]
+  | .bytesNil, b => by cases b <;> simp [beqO]
+  | .bytes a, b => by cases b <;> simp [beqO]
+  | .fixed a, b => by cases b <;> simp [beqO]
+  | .sliceNil, b => by cases b <;> simp [beqO]
+  | .slice a, b => by cases b <;> simp [beqO, beqL_iff a]
+  | .array a, b => by cases b <;> simp [beqO, beqL_iff a]
+  | .mapNil, b => by cases b <;> simp [beqO]
+  | .map a, b => by cases b <;> simp [beqO, beqM_iff a]
+  | .struct a, b => by cases b <;> simp [beqO, beqL_iff a]
+theorem beqL_iff : ∀ a b : List Obj, beqL a b = true ↔ a = b
+  | [], b => by cases b <;> simp [beqL]
+  | a :: as, b => by cases b <;> simp [beqL, beqO_iff a, beqL_iff as]
+theorem beqM_iff : ∀ a b : List (Obj × Obj), beqM a b = true ↔ a = b
+  | [], b => by cases b <;> simp [beqM]
+  | (a, a') :: as, b => by
+    cases b with
+    | nil => simp [beqM]
+    | cons kv bs => obtain ⟨b, b'⟩ := kv; simp [beqM, beqO_iff a, beqO_iff a', beqM_iff as, and_assoc]
+end
+
+instance : DecidableEq Obj := fun a b =>
+  if h : beqO a b = true then isTrue ((beqO_iff a b).mp h)
+  else isFalse (fun e => h ((beqO_iff a b).mpr e))
+
+instance (ty : Ty) (a b : Obj) : Decidable (Equiv ty a b) := inferInstanceAs (Decidable (norm ty false a = norm ty false b))
+
 end AlgoVerif.CodecSchema
